@@ -352,6 +352,44 @@ impl PreprocessorCacheEntry {
     }
 }
 
+/// Verification hook: read-only view of the private entry state.
+#[cfg(sccache_verif)]
+#[allow(clippy::type_complexity)]
+impl PreprocessorCacheEntry {
+    pub fn verif_view(
+        &self,
+    ) -> (
+        usize,
+        Vec<(
+            String,
+            Vec<(OsString, String, u64, Option<Timestamp>, Option<Timestamp>)>,
+        )>,
+    ) {
+        (
+            self.number_of_entries,
+            self.results
+                .iter()
+                .map(|(k, v)| {
+                    (
+                        k.clone(),
+                        v.iter()
+                            .map(|e| {
+                                (
+                                    e.path.clone(),
+                                    e.digest.clone(),
+                                    e.file_size,
+                                    e.mtime,
+                                    e.ctime,
+                                )
+                            })
+                            .collect(),
+                    )
+                })
+                .collect(),
+        )
+    }
+}
+
 /// Environment variables that are factored into the preprocessor cache entry cached key.
 static CACHED_ENV_VARS: Lazy<HashSet<&'static OsStr>> = Lazy::new(|| {
     [
